@@ -354,8 +354,8 @@ def run(ctx, model_ok):
     wcases = []
     while len(wcases) < (80 if ctx.tier == "quick" else 600):
         c = C16.gen_case(rng)
-        if c.get("via") == "call":
-            continue              # the interpreter's trace function is per thread: a worker has none
+        if c.get("via", "assign") != "assign":
+            continue              # the interpreter's trace function is per thread (a worker has none), and the import hook serves the thread that entered the context
         c["worker"] = True
         wcases.append(c)
     wimpl = C16.run_impl(wcases)
